@@ -176,7 +176,8 @@ func check(c Case) evid.Outcome {
 	return o
 }
 
-var selDict = []string{"a", "div", ".c", "#id", "*", " ", ">", "+", "~", ",", ":hover", "::before", ":not(", ")", "(", "[", "]", "[href", "=", "^=", "$=", "|=", "\"", "'", "\"x\"", "'y'", "\"{\"", "'}'", "\"]\"", "\")\"", "\"\\\"\"", "'\\''", "\\", "\\\n", "\\\r\n", "\\\f", "url(", "URL(", "Url( ", "url(x", "url(\"", "url('", "url(x\")", "url(\"x\")", "expression(", "var(", "{", "}", ";", "@", "@media", "@import", "/*", "*/", "//", "<", "<!--", "-->", "</style>", "\n", "\r", "\f", "\t", "\x00", "é", "--x", "-", "_", "$", "^", "|", "!", "&", "%", "a[href=\"x\"]", "a:not(.b)", "input[value^=a]", "){}", "{}", "z{", "\"){}input[value^=a]{background:url(//evil/a)}z{\"", "y)"}
+var selDict = []string{"a-url(b)", "my_url(x)", "-x-image-url(", "xurl(", "a-url(b) url(x'){}*{color:red}')", "aurl(b) URL(x\"){}p{}z{\"y)", " url(", "url (", "u\\72l(",
+	"a", "div", ".c", "#id", "*", " ", ">", "+", "~", ",", ":hover", "::before", ":not(", ")", "(", "[", "]", "[href", "=", "^=", "$=", "|=", "\"", "'", "\"x\"", "'y'", "\"{\"", "'}'", "\"]\"", "\")\"", "\"\\\"\"", "'\\''", "\\", "\\\n", "\\\r\n", "\\\f", "url(", "URL(", "Url( ", "url(x", "url(\"", "url('", "url(x\")", "url(\"x\")", "expression(", "var(", "{", "}", ";", "@", "@media", "@import", "/*", "*/", "//", "<", "<!--", "-->", "</style>", "\n", "\r", "\f", "\t", "\x00", "é", "--x", "-", "_", "$", "^", "|", "!", "&", "%", "a[href=\"x\"]", "a:not(.b)", "input[value^=a]", "){}", "{}", "z{", "\"){}input[value^=a]{background:url(//evil/a)}z{\"", "y)"}
 
 func gen(t *rapid.T) Case {
 	var c Case
